@@ -184,12 +184,37 @@ def gen_starve_case(rng, chan, Ns=(2, 4)):
         nt = 3
         sched = [2] * 16
         for _ in range(32): sched += [0] * 24 + [1] + [2] * 4200
+    elif chan in ZC_KINDS and rng.random() < 0.5:
+        # the stream's thread advances ONE step per round - so that it stands, in turn, at every point between taking an event and giving
+        # its payload back - while producer A gets 40 grants per round: with the pool exhausted every one of its sends must be refused at once
+        progs = [[(rng.choice(kinds), [100 + j]) for j in range(120)], [("drive", [0])]]
+        nt = 2
+        sched = []
+        for _ in range(60): sched += [0] * 40 + [1]
     else:
         sched = random_sched(rng, nt, rng.randint(5, 120), burst=rng.choice([0.3, 0.6]))
         sched += [rng.randrange(nt)] * 6000
     sched += random_sched(rng, nt, rng.randint(0, 60), burst=0.5)
     for _ in range(150): sched += list(range(nt))
     return mk_case(chan, N, M, k, 0, progs, sched, {"profile": "starve"}, probe=True)
+
+def uni_oracle_prompt_alloc(case, recs):
+    """C16 'returns promptly instead of waiting', zero-copy atomic channel: one send makes ONE attempt to take a slot from the payload
+    pool (one fetch_add on the free list's dequeuer head, cell 503) and reports 'buffer full' when that fails; a send that makes a
+    second attempt inside the same call is retrying the allocation, i.e. waits for a consumer to release a payload. (Spinning on the
+    free list's in-order head release behind another allocator, or on a publication behind another producer, is not counted: that is
+    the lock-free rings' own behaviour.)"""
+    if case.meta.get("chan") != "zc_atomic": return []
+    progs = case.meta["progs"]
+    senders = {t for t, p in enumerate(progs) if p and all(n in ("send", "sendw") for n, a in p)}     # threads that only send (every ret = one call)
+    attempts = {}
+    for r in recs:
+        if r[0] == "acc" and r[1] in senders and r[2] == 503 and r[3] == 2:
+            attempts[r[1]] = attempts.get(r[1], 0) + 1
+            if attempts[r[1]] > 1:
+                return [(None, "thread %d made a second attempt to allocate a pool slot inside one send call: the send retries the allocation (waits for a payload to be released) instead of reporting 'buffer full' at once" % r[1])]
+        elif r[0] == "ret" and r[1] in senders: attempts[r[1]] = 0
+    return []
 
 def uni_oracle_probe(case, recs):
     """(cases run with probe=1) when the run went quiet, after draining every stream the channel accepted exactly BUFFER_SIZE of BUFFER_SIZE+1 sends"""
@@ -470,6 +495,14 @@ def consumer_inside_a_send(case, recs):
             open_.discard(r[1]); pos[r[1]] = pos.get(r[1], 0) + 1
     return False
 
+def yields_inside_send(case, recs, value, listener=None):
+    """how many events the stream (Multi: listener `listener`) yielded between the first access and the return of the plain send /
+    send_with / send_with_async that carried `value`; None when the value did not come from such an operation"""
+    for (t, j, n, a, first, retpos, code) in op_intervals(case, recs, with_open=True):
+        if n in ("send", "sendw", "senda") and a and a[0] == value:
+            return len([1 for r in recs[first + 1:retpos] if r[0] == "ret" and r[2] == 12 and (listener is None or r[4] == listener)]), n
+    return None
+
 def oracle_lost_wakeup(case, recs):
     """C04: at the end of the run everything is quiescent, no cancel happened, an accepted event is still pending and every
     stream is parked un-notified"""
@@ -489,6 +522,18 @@ def oracle_lost_wakeup(case, recs):
             if k >= 2: cls = "C04.ring.multi_consumer"
             elif sends_overlap(case, recs): cls = "C04.ring.overlapping_sends"
             elif consumer_inside_a_send(case, recs): cls = "C04.ring.stale_length_sample"
+            # the known mechanism, exactly: with one stream (MAX_STREAMS 1) a publication goes un-woken only when its sample was >= 3, i.e. at
+            # least two earlier events were still unreleased when the send looked at `head` - and for the stream to sit parked in the end
+            # they were consumed before that send published: the first lost event's send has >= 2 yields inside it. When every lost event
+            # can be traced to its send and NONE of them has, this is not the known finding.
+            if cls is not None and k == 1 and case.meta.get("M", 1) == 1:
+                acc_v = [r[3] for r in recs if r[0] == "ret" and r[2] == 10]; got_v = {r[3] for r in recs if r[0] == "ret" and r[2] == 12}
+                lost = [v for v in acc_v if v not in got_v]
+                inside = [yields_inside_send(case, recs, v) for v in lost]
+                # (send / send_with wake when the sample is <= MAX_STREAMS + 1 = 2; the movable atomic channel's send_with_async only when its
+                # sample BEFORE the publication is 0: there one earlier unreleased event is enough)
+                need = lambda name: 1 if (name == "senda" and case.meta["chan"] == "move_atomic") else 2
+                if lost and ok == len(acc_v) and all(x is not None for x in inside) and all(c < need(name) for c, name in inside): cls = None
         elif case.meta["chan"] == "crossbeam":
             # the crossbeam channel decides from the length sampled BEFORE its try_send (len_before <= 2): known finding F17 whenever
             # that sample can be stale, i.e. another thread acted inside some send
@@ -507,3 +552,29 @@ def oracle_cancel(case, recs):
         if v != "done":
             hits.append((None, "stream %d is still parked (not notified) after cancel_all returned and the run went quiet" % v[1]))
     return hits
+
+# ---- free-running stress of the Uni channels with dawdling setters (harness/src/unistress.rs; oracle only) ----
+UNI_KINDS = ("move_atomic", "move_full_sync", "zc_atomic", "zc_full_sync", "crossbeam")
+def mk_unistress(chan, N, P, n, delay):
+    return Case("unistress chan=%s N=%d P=%d n=%d delay=%d ; S" % (chan, N, P, n, delay), None, dict(profile="unistress", chan=chan, N=N, P=P, n=n, delay=delay))
+def gen_unistress(rng, chan=None):
+    return mk_unistress(chan or rng.choice(UNI_KINDS), rng.choice([2, 4, 8]), rng.choice([1, 2, 2, 3]), rng.choice([100, 200]), rng.choice([5, 20, 50]))
+def oracle_unistress(case, recs):
+    """exactly-once, unaltered, in producer order: the stream yields exactly the accepted values - none twice, none that was never sent (a payload
+    read before / while its setter wrote it), none missing - and one producer's values in its send order; nobody panics or hangs"""
+    hits = []
+    r = {x[2]: (x[3], x[4]) for x in recs if x[0] == "ret"}
+    for x in recs:
+        if x[0] == "panic": hits.append((None, "a channel operation panicked in thread %d" % x[1]))
+    if 35 in r:
+        acc, got = r[35]; twice, never = r[36]; disorder, timed_out = r[37]
+        if never: hits.append((None, "the stream yielded %d values that no producer sent (payload read before or while its setter wrote it)" % never))
+        if twice: hits.append((None, "%d values were yielded twice" % twice))
+        if timed_out: hits.append((None, "the consumer gave up after 30 s: %d of the %d accepted events arrived" % (got, acc)))
+        elif acc != got: hits.append((None, "%d events were accepted, %d yielded" % (acc, got)))
+        if disorder: hits.append((None, "%d times one producer's events were yielded out of its send order" % disorder))
+    elif not hits: hits.append((None, "no result"))
+    return hits[:1]
+def parse_unistress_line(line):
+    params = dict(kv.split("=") for kv in line.split(";")[0].split()[1:])
+    return mk_unistress(params["chan"], int(params["N"]), int(params["P"]), int(params["n"]), int(params["delay"]))
